@@ -48,6 +48,11 @@ SITES = {
 CXX = {"namespace", "method", "static_method", "method_extern", "tparam", "tparam_use"}
 
 IDENT = r"[A-Za-z0-9_]"
+# BindgenList of NameSites.tla: words that may not stand at a site unmangled
+MUST_MANGLE = set("""abstract alignof as async await become box break const continue crate do dyn else enum extern false final
+fn for gen if impl in let loop macro match mod move mut offsetof override priv proc pub pure ref return Self self sizeof static
+struct super trait true try type typeof unsafe unsized use virtual where while yield str bool f32 f64 usize isize u128 i128 u64
+i64 u32 i32 u16 i16 u8 i8 _""".split())
 
 
 def pattern(tokens, ident):
@@ -117,8 +122,14 @@ def run(res, tier):
         if verdict == "ok":
             n_ok += 1
             continue
+        if verdict == "absent" and info not in MUST_MANGLE:
+            # the site names the thing differently (or not at all) but not by a word that cannot stand there: the
+            # property (the bindings compile) is not at stake, the model of the site is out of date
+            res.drift.append("name site %s, C name `%s`: model predicts `%s`, the code writes `%s`" %
+                             (c["site"], c["name"], c["ident"], info or "<nothing at that place>"))
+            continue
         key = "name-site:%s:%s:%s" % (c["site"], name_class(c["name"]),
-                                      {"failed": "generation-failed", "timeout": "timeout"}.get(verdict, "predicted-identifier-absent"))
+                                      {"failed": "generation-failed", "timeout": "timeout"}.get(verdict, "unmangled-reserved-word"))
         res.violation(key, {"site": c["site"], "c_name": c["name"], "predicted": c["ident"], "found_instead": info,
                             "header": SITES[c["site"]][0].format(n=c["name"]), "flags": SITES[c["site"]][1]})
     res.add(name_sites_cases=len(cases), name_sites_conform=n_ok, name_sites=len(SITES))
